@@ -51,6 +51,14 @@ package server
 //@ props C07
 // from C07 "yields the NOTIFICATION code/subcode ... the RFCs prescribe": a Cease turned into a Hard Reset (RFC 8538 3.1)
 // carries the NOTIFICATION it stands for - its code, its subcode, then its data
+// from C07 "routing messages received in any other state never change a RIB ... the reported session/admin state always
+// matches the real one": a neighbour that is stopped (deleted, de-configured, server stopped) is not Established from
+// that moment on - an UPDATE its reader had already queued is then refused by the state guard of handleFSMMessage
+// instead of re-populating the tables of a neighbour that no longer exists
+//@ func (*BgpServer).stopNeighbor
+//@   claims at-call
+//@   at-call peer.stopFSM() requires called(Store)
+//@   at-call peer.fsm.state.Store( requires arg1 == bgp.BGP_FSM_IDLE
 //@ func (*fsmHandler).established$2
 //@   claims at-call
 //@   at-call bgp.NewBGPNotificationMessage( requires len(arg2) == len(m.Body.(*bgp.BGPNotification).Data) + 2 && arg2[0] == m.Body.(*bgp.BGPNotification).ErrorCode && arg2[1] == m.Body.(*bgp.BGPNotification).ErrorSubcode
@@ -328,9 +336,13 @@ package server
 // expiry of the restart timer - a reconnection attempt that fails inside the window is not one
 //@ props C09
 //@ func clearedNeighborState
+//@   tag C09 C07
 //@   requires conf != nil
 //@   modifies nothing
-//@   ensures result.NeighborAddress == conf.Config.NeighborAddress && result.PeerAs == conf.Config.PeerAs && result.LocalAs == conf.Config.LocalAs && result.PeerType == conf.Config.PeerType
+// from C07 "the reported session/admin state always matches the real one": the address the neighbour is known by is
+// part of its state only for dynamic and unnumbered neighbours (no configured address) - clearing keeps it
+//@   ensures result.NeighborAddress == conf.State.NeighborAddress
+//@   ensures result.PeerAs == conf.Config.PeerAs && result.LocalAs == conf.Config.LocalAs && result.PeerType == conf.Config.PeerType
 //@   ensures conf.Config.PeerType == oc.PEER_TYPE_EXTERNAL ==> result.RemovePrivateAs == conf.Config.RemovePrivateAs
 //@ props C12
 //@ func (*BgpServer).handleFSMMessage
@@ -342,6 +354,16 @@ package server
 //@   at-call peer.fsm.bgpMessageResetStats() requires called(clearedNeighborState)
 //@   at-call ^s.dropAdjRIBIn(peer, peer.configuredRFlist()) requires restartTimerExpired
 //@   at-call peer.llgrFamilies() requires restartTimerExpired
+// "... or with long-lived GR they are instead kept carrying LLGR_STALE (NO_LLGR routes dropped)": whenever the restart
+// timer of a restarting peer expires, one of the two happens - the retained routes are dropped, or they go through
+// the long-lived treatment (also when the long-lived timers are already running from an earlier loss: the routes of
+// the session that came and went in between are stale without the community)
+//@   at-call drainChannel(peer.fsm.outgoingCh.Out()) requires nextStateIdle ==> called(llgrFamilies) || called(dropAdjRIBIn)
+// "after re-establishment ... routes not re-announced are withdrawn" when End-of-RIB has arrived "for every GR family":
+// a family the peer no longer lists in the Graceful Restart capability of the new session (or a new session without
+// the capability) is not a GR family any more and no End-of-RIB is owed for it - RFC 4724 4.2 has its stale routes
+// removed as soon as the session is up again. The session's source description is only built after that was looked at
+//@   at-call table.NewPeerInfo( requires called(dropStaleOfFamiliesNotRenewed)
 // "when End-of-RIB has arrived for every GR family ... routes not re-announced are withdrawn": the sweep at that point
 // covers every family of the session, not only those whose marker came in the last UPDATE
 //@   at-call peer.adjRibIn.DropStale( requires called(configuredRFlist)
@@ -349,6 +371,28 @@ package server
 // "... until the per-family long-lived timer expires": what the expiry removes are the routes still stale; routes the
 // peer has re-announced since (the session may be up again, End-of-RIB not yet in) are fresh and stay. The closure is
 // the management operation run by the timer goroutine: what it propagates comes from the sweep of stale routes
+// the step itself: for a restarting peer the families are classified by what the new session's capability lists
+// (forwardingPreservedFamilies, under contract above), exactly the stale routes of the families not listed are swept
+// and propagated as withdrawals, and the peer stops being "restarting" when no family is left
+//@ func (*BgpServer).dropStaleOfFamiliesNotRenewed
+//@   claims at-call at-return
+//@   at-call peer.adjRibIn.DropStale( requires called(forwardingPreservedFamilies) && arg1 == gone && len(gone) > 0
+//@   at-call s.propagateUpdate( requires called(DropStale) && arg2 == dropped
+//@   at-call peer.stopPeerRestarting() requires len(renewed) == 0
+//@   at-return requires called(forwardingPreservedFamilies) && len(gone) > 0 ==> called(propagateUpdate)
+
+// from C12 "routes of the families the peer listed in its GR capability stay usable but marked stale": what the peer
+// listed is per-family state of the running session; a configuration update that needs no new OPEN (prefix limits)
+// installs the families of the request with that state carried over, not with the empty state of the request
+//@ func (*peer).updatePrefixLimitConfig
+//@   claims at-return
+//@   at-return requires ret1 == nil ==> called(carrySessionState)
+// the copy: an entry whose family the running session has ends up with that family's negotiated state (the flags
+// forwardingPreservedFamilies / llgrFamilies read)
+//@ func carrySessionState
+//@   claims step
+//@   loop 1 step o.State.Family == dst[i].State.Family ==> dst[i].MpGracefulRestart.State.Received == o.MpGracefulRestart.State.Received && dst[i].MpGracefulRestart.State.Enabled == o.MpGracefulRestart.State.Enabled && dst[i].LongLivedGracefulRestart.State.Enabled == o.LongLivedGracefulRestart.State.Enabled
+
 //@ func (*BgpServer).handleFSMMessage$2$1
 //@   claims at-call
 //@   at-call s.propagateUpdate( requires called(DropStale) && !called(DropAll) && !called(dropAdjRIBIn)
